@@ -33,12 +33,16 @@ type ReadersCase struct {
 	Workers  int         `json:"workers"`
 	Rounds   int         `json:"rounds"`
 	ColdPart bool        `json:"coldPart"` // the shared cache is evicted before the concurrent phase (misses: D5 territory)
+	PQ       bool        `json:"pq"`       // the index has a product quantiser, and enough points for it to be trained
 }
 
 func genReaders(t *rapid.T) ReadersCase {
 	c := ReadersCase{N: rapid.IntRange(30, 400).Draw(t, "n"), Dim: rapid.IntRange(2, 6).Draw(t, "dim"), Seed: rapid.IntRange(1, 1000).Draw(t, "seed"),
 		Flat: rapid.IntRange(0, 3).Draw(t, "flat") == 0, Workers: rapid.IntRange(2, 8).Draw(t, "workers"), Rounds: rapid.IntRange(1, 6).Draw(t, "rounds"),
 		ColdPart: rapid.IntRange(0, 5).Draw(t, "coldPart") == 0}
+	if rapid.IntRange(0, 7).Draw(t, "pq") == 0 {
+		c.PQ, c.Dim, c.N, c.ColdPart = true, 2*rapid.IntRange(1, 3).Draw(t, "pqHalfDim"), rapid.IntRange(1005, 1040).Draw(t, "pqN"), false
+	}
 	nq := rapid.IntRange(2, 8).Draw(t, "nq")
 	for i := 0; i < nq; i++ {
 		c.Queries = append(c.Queries, gen.BulkVector(c.Seed+100+i, rapid.IntRange(0, 5000).Draw(t, fmt.Sprintf("qv%d", i)), c.Dim, models.DistanceEuclidean))
@@ -56,6 +60,17 @@ func execReaders(c ReadersCase) (res vt.Result) {
 	if c.Flat {
 		prop = gen.PFlat
 		schema = models.IndexSchema{prop: {Type: models.IndexTypeVectorFlat, VectorFlat: &models.IndexVectorFlatParameters{VectorSize: uint(c.Dim), DistanceMetric: models.DistanceEuclidean}}}
+	}
+	if c.PQ {
+		q := &models.Quantizer{Type: models.QuantizerProduct, Product: &models.ProductQuantizerParameters{NumCentroids: 8, NumSubVectors: 2, TriggerThreshold: 1000}}
+		sv := schema[prop]
+		if c.Flat {
+			sv.VectorFlat.Quantizer = q
+		} else {
+			sv.VectorVamana.Quantizer = q
+		}
+		schema[prop] = sv
+		rec.Count("readers_cases_with_a_trained_product_quantiser", 1)
 	}
 	s, err := drive.Open(filepath.Join(dir, "sharddb.bbolt"), schema, 1<<20, drive.Manager(-1))
 	if err != nil {
